@@ -60,6 +60,7 @@ PROP = {  # subject prefix -> (properties, what failed before the repair)
  "temporal values in pyarrow / polars containers": ("C03 C12", "pyarrow timestamp values raised TypeError; chunked temporal values raised TypingError in cumulative/rolling; datetime values on chunk-factorized keys raised TypingError (is_null(datetime64)); polars datetimes with nulls raised ArrowInvalid"),
  "facade methods honour the column selection": ("C17", "groupby_fast(...).cumsum/cummax/cummin/ema/head/tail/apply/rolling ignored [] selection and aggregated the key columns; agg(func, mask) dropped the mask; iteration used .loc with row positions"),
  "head/tail/nth of the DataFrame facade": ("C17", "df.groupby_fast(...).head/tail/nth raised AttributeError ('DataFrame' object has no attribute 'name')"),
+ "the cached key counts and group-sorted indexer are read-only": ("C19", "writing into the arrays returned by gb.groups or gb.key_count changed the results of later calls (shared cached buffers)"),
  "apply returns an empty result": ("C05 C09", "median/apply with nothing selected raised IndexError (was known finding K2)"),
 }
 log = subprocess.run(["git", "-C", "/repo", "log", "--format=%h %s", "be63ad5..HEAD"], stdout=subprocess.PIPE).stdout.decode().splitlines()
